@@ -223,18 +223,31 @@ def run(ctx):
             if sig is None and cases[i]["remediation"] == "maximum" and c07.lifecycle_has_readd(cases[i], res[i][0]) \
                     and c07.older_modified_retried_while_younger_queued(cases[i], res[i][0]):
                 sig = "F19-complete-cache-regresses-on-retry"
+            # the merge met a pair of events it declares impossible and raised (histories in which events
+            # of an earlier life of a re-added object are still queued)
+            if sig is None and cases[i]["remediation"] != "disabled" and c07.lifecycle_has_readd(cases[i], res[i][0]) \
+                    and any("BUG : trying to merge" in (ob["exc"] or "") for ob in res[i][0]["iters"]):
+                sig = "F32-merge-of-a-pair-declared-impossible"
             violations.append({"sig": sig, "what": f"under policy {cases[i]['remediation']} the drained client differs from the failure-free state (case {i})", **rep})
         elif not c_ok:
             corr.append({"what": f"corr_client (remediation {cases[i]['remediation']}): client model != GenericClient on case {i}", **rep})
     # same history, same final data under the three policies
     for j in range(0, len(cases), 3):
-        finals = []
+        finals, lives = [], []
         for i in (j, j + 1, j + 2):
             last = res[i][0]["iters"][-1]
             finals.append(cliprops.common.canon(last["localdata"]))   # the property speaks of target and local data
+            lives.append(cliprops.common.canon({t: o for t, o in last["localdata"].items() if not t.startswith("trashbin_")}))
         drained = all(not res[i][0]["iters"][-1]["queue"] for i in (j, j + 1, j + 2))
-        if drained and len(set(finals)) > 1 and not any(c07.f5(cases[x], res[x][0]) for x in (j, j + 1, j + 2)):
-            violations.append({"sig": None, "replay_kind": "client_case", "case": cliprops.common.enc(cases[j]),
+        # (a history whose run under one of the policies already failed the drained-state oracle is
+        #  reported there, with its signature)
+        reported = any(x in failing and not failing[x][1] for x in (j, j + 1, j + 2))
+        if drained and len(set(finals)) > 1 and not reported:
+            # only the trashbin differs: 'maximum' cancelled an added+removed pair that the other
+            # policies applied (object created, then trashed until its retention is over)
+            f33 = len(set(lives)) == 1 and cases[j]["retention"] and finals[0] == finals[1]
+            violations.append({"sig": "F33-cancelled-pair-never-trashed" if f33 else None, "replay_kind": "client_case",
+                               "case": cliprops.common.enc(cases[j]),
                                "what": f"final local data differ between remediation policies on history {j // 3}"})
     # unit level: the real ErrorQueue merges every consistent pair of 'modified' events
     from concurrent.futures import ProcessPoolExecutor
